@@ -50,7 +50,7 @@ def choose_index(ex, name, n):
     """fork over 0..n-1 through the solver (sharding-friendly)"""
     if n == 1:
         return 0
-    return ex.value(ex.fd(name, n))
+    return ex.value(ex.fd(name, n, selector=True))
 
 
 def A_harness(textfn, do_tokens=False, do_parse=True, mode="exec", path_oracles=(), sym_tiling=False, parse_kw=None,
